@@ -17,7 +17,9 @@ RULE = ("cases = <type> <op> <operands> for types i32/i64/i128/BigInt, GaussInt 
         "at 2^600..2^1100 (> 10^300). Machine integers use the full range and the model predicts every overflow panic "
         "exactly (width-checked mirror); machine-based quadratic integers are restricted to |coordinates| < 2^(w/2-2) for "
         "division ops and < 2^20 (i64) / 2^40 (i128) for gcd/gcdx/lcm, Ratio<i64> to |n|,|d| < 2^20, so that no intermediate "
-        "overflows (large magnitudes are covered by the BigInt instances). A case is non-trivial when the implementation "
+        "overflows (large magnitudes are covered by the BigInt instances); plus pairs with a large common factor "
+        "(a = g u, b = g v, |g| ~ 2^(w/2-6), small cofactors) for gcd / lcm / divides, on which every intermediate of the "
+        "current algorithms stays below 2^(w-4), so that a panic there is a regression (e.g. multiplying before dividing in lcm). A case is non-trivial when the implementation "
         "does not panic and no operand is zero; distinct = distinct case lines. In addition to the exact comparison the "
         "harness evaluates the property's clauses on the implementation's output with the library's own ring operations "
         "(a = q b + r, norm decrease, d | a, d | b, s a + t b = d, normalizing_unit(d) = 1, gcd(a,b) = gcd(b,a), lcm*gcd ~ a*b, "
